@@ -901,14 +901,13 @@ func runC06(c *Ctx) {
 // rulePosWriters: the LRU store's key→offset index (shared by C06 and C08).
 func rulePosWriters(c *Ctx) {
 	P := c.P
-	lru := P.Named("cache", "lruStore")
-	lruFn := P.Func("cache", "", "LRU")
-	presentF := P.Field("cache", "lruStore", "present")
-	accessF := P.Field("cache", "lruStore", "access")
-	if lru == nil || lruFn == nil || presentF == nil || accessF == nil {
-		c.undecided("ANCHOR", "cache.lruStore", 0, "anchor not found")
+	roles := resolveLRU(P)
+	if roles == nil {
+		c.undecided("ANCHOR", "cache LRU store (type allocated by LRU, its map index, heap and clock)", 0, "anchor not found")
 		return
 	}
+	lru, lruFn, presentF, accessF := roles.storeT, roles.lruFn, roles.presentF, roles.accessF
+	_ = lru
 	qAdd, qRemove, qPop, qUpdate := P.Func("heapq", "Queue", "Add"), P.Func("heapq", "Queue", "Remove"), P.Func("heapq", "Queue", "Pop"), P.Func("heapq", "Queue", "Update")
 	nUpd, nDel := 0, 0
 	for _, fn := range P.PkgFuncs("cache") {
